@@ -30,7 +30,7 @@ func init() {
 	}})
 	SetMeta("C12", &Meta{
 		Level: "exploration",
-		Rule: "coder-schedules: seeded (coder kind, data/parity shard counts, even shard length, goroutine count, erasure set) with every release of a parked worker drawn from the tape; a case is non-trivial when a parallel region with >= 2 workers was driven, distinct by (shard length, workers spawned, strategy, operation, schedule hash). par2-goroutine-invariance: whole Create/Repair on the simulated disk across goroutine counts under driven schedules. coder-race-batch: the same coder workloads free-running in a -race build (in two thirds of the batch with the portable Go kernels selected through hook H3, so that the race detector sees every access of the coder).",
+		Rule:  "coder-schedules: seeded (coder kind, data/parity shard counts, even shard length, goroutine count, erasure set) with every release of a parked worker drawn from the tape; a case is non-trivial when a parallel region with >= 2 workers was driven, distinct by (shard length, workers spawned, strategy, operation, schedule hash). par2-goroutine-invariance: whole Create/Repair on the simulated disk across goroutine counts under driven schedules. coder-race-batch: the same coder workloads free-running in a -race build (in two thirds of the batch with the portable Go kernels selected through hook H3, so that the race detector sees every access of the coder).",
 		Assumptions: []string{
 			"the yield points of hook H2 sit before every kernel call, so interleavings are explored at kernel-call granularity; interleavings inside one kernel call are not explored (kernels of different workers touch disjoint bytes iff the logical range check passes)",
 			"all workers of one parallel region are mutually concurrent (no synchronisation between spawn and join), so pairwise disjointness of their write ranges plus full coverage is a complete race check for the shared output shards",
